@@ -8,7 +8,13 @@ W=/var/tmp/mutwt${NOREPO:+-$$}      # NOREPO=1: checks run against the scratch w
 HEAD=$(git -C /repo rev-parse --short HEAD)
 ORIG=/var/tmp/mutorig-$HEAD
 build() { cmake -G Ninja -S "$1" -B "$2" -DCMAKE_BUILD_TYPE=RelWithDebInfo -DCMAKE_C_FLAGS=-Wno-error -DCMAKE_CXX_FLAGS=-Wno-error >/dev/null 2>&1 && cmake --build "$2" -j16 >/dev/null 2>&1; }
-if [ ! -x "$ORIG/dfs/dfs" ]; then rm -rf /var/tmp/mutorig-*; build /repo "$ORIG" || { echo "orig build failed"; exit 2; }; fi
+# (one builder at a time: several of these may be started together)
+exec 9>/var/tmp/mutorig.lock; flock 9
+if [ ! -x "$ORIG/dfs/dfs" ] || [ ! -x "$ORIG/basic/bbcbasic_to_text" ]; then rm -rf /var/tmp/mutorig-*; build /repo "$ORIG" || { echo "orig build failed"; exit 2; }; fi
+if [ -n "${DEMO2:-}" ] && [ ! -x "$ORIG-dbg/dfs/dfs" ]; then
+  cmake -G Ninja -S /repo -B "$ORIG-dbg" -DCMAKE_BUILD_TYPE=Debug -DCMAKE_C_FLAGS=-Wno-error -DCMAKE_CXX_FLAGS=-Wno-error >/dev/null 2>&1 && cmake --build "$ORIG-dbg" -j16 >/dev/null 2>&1 || { echo "orig debug build failed"; exit 2; }
+fi
+flock -u 9
 git -C /repo worktree remove --force $W >/dev/null 2>&1; rm -rf $W
 git -C /repo worktree add -q $W HEAD || exit 2
 if ! git -C $W apply "$D/patch.diff"; then echo "RESULT $D: patch does not apply"; git -C /repo worktree remove --force $W; exit 3; fi
